@@ -67,3 +67,28 @@ func VerifC26AssembleMovedFundsSweepTransaction(
 		bitcoinChain, walletPublicKey, movedFundsUtxo, walletMainUtxo, fee,
 	)
 }
+
+// VerifC26RedemptionFeeDistribution re-exports withRedemptionTotalFee: the
+// returned function is the one value a redemption action creates once and
+// may evaluate several times.
+func VerifC26RedemptionFeeDistribution(
+	totalFee int64,
+) func([]*RedemptionRequest) []int64 {
+	return withRedemptionTotalFee(totalFee)
+}
+
+// VerifC26AssembleRedemptionTransactionWith re-exports
+// assembleRedemptionTransaction with a caller-held fee distribution function.
+func VerifC26AssembleRedemptionTransactionWith(
+	bitcoinChain bitcoin.Chain,
+	walletPublicKey *ecdsa.PublicKey,
+	walletMainUtxo *bitcoin.UnspentTransactionOutput,
+	requests []*RedemptionRequest,
+	feeDistribution func([]*RedemptionRequest) []int64,
+	shape ...RedemptionTransactionShape,
+) (*bitcoin.TransactionBuilder, error) {
+	return assembleRedemptionTransaction(
+		bitcoinChain, walletPublicKey, walletMainUtxo, requests,
+		feeDistribution, shape...,
+	)
+}
